@@ -11,7 +11,7 @@ RULE = ("shapes enumerated exhaustively within the tier's bound (quick: 1..5 axe
         "axes and lengths 1..5); per shape: iter_indices history (elements+3 calls, len interleaved), every axis 0..d+1 x "
         "every position 0..len (in and out of range) view-iterator history continued 3 calls past exhaustion, iter_axis "
         "history, get AND get_mut (with a write through it: exactly that position changes) at every in-range index of small shapes plus out-of-range (up to two past the end) / wrong-length indices, sum along every "
-        "axis; debug build (thorough: also release). non-trivial = model output contains at least one yielded item")
+        "axis; debug build (thorough: also release). non-trivial = model output contains at least one yielded item; View::to_array of every axis view: shape, data, get at every index, views of the copy")
 
 
 def fmt(l):
@@ -48,6 +48,12 @@ def cases_for_shape(sh, rng, small):
             Ev = E // sh[a] if a < d else 0
             cs.append("view %s %d %d %d" % (fmt(sh), a, i, Ev + 3))
             cs.append("getaxis %s %d %d" % (fmt(sh), a, i))
+    # View::to_array: the owned copy of every axis view (and of the positions one past the end: no view) indexes like an
+    # array of the remaining axes (Proofs/ToArrayP.v) and has views of its own
+    if E <= 400:
+        for a in range(d + 1):
+            for i in range((sh[a] if a < d else 0) + 1):
+                cs.append("toarray %s %d %d" % (fmt(sh), a, i))
     if a_small(E, small):
         for idx in itertools.product(*[range(n + 1) for n in sh]):
             cs.append("get %s %s" % (fmt(sh), fmt(idx)))
